@@ -312,7 +312,10 @@ def alias_programs(seed, n):
                            'x = [h] | map(v => v)', 'x = h or 1',
                            # a tuple (from items / enumerate / the host) stored by an item write without passing through a variable
                            'c = [0, 0]\nc[0] = items({"k": h})[0]\nx = c', 'd = {}\nd["k"] = enumerate([h])[0]\nx = d', 'c = [0]\nc[0] = enumerate(h)[0]\nx = c',
-                           'c = [[]]\nc[0] += [items({"k": h})[0]]\nx = c', 'c = [0]\nc[0] = tp\nx = c', 'd = {"k": 0}\nd["k"] = tp\nx = d'])]
+                           'c = [[]]\nc[0] += [items({"k": h})[0]]\nx = c', 'c = [0]\nc[0] = tp\nx = c', 'd = {"k": 0}\nd["k"] = tp\nx = d',
+                           # a slot that already refers to the object (put there by reference) is assigned that same object: the copy detaches it
+                           'c = []\npush(c, h)\nc[0] = h\nx = c', 'c = [0]\ninsert(c, 0, h)\nc[0] = h\nx = c', 'c = [h]\nc[0] = c[0]\nx = c', 'c = []\npush(c, g)\nc[0] = g\nx = c',
+                           'd = {"k": 0}\nc = []\npush(c, h)\nd["k"] = c[0]\nc[0] = d["k"]\nx = c'])]
         for _ in range(r.randrange(1, 5)):
             R = r.choice(roots)
             lines.append(r.choice(['push(%s, 9)' % R, 'push(%s[0], 9)' % R, '%s[0] = 7' % R, 'del %s[0]' % R, '%s["a"] = 7' % R, 'pop(%s)' % R,
